@@ -388,3 +388,111 @@ func init() {
 		Doc: "the length hint handed to String.slice is the character length of the very string it is applied to (X.slice(a, b, X.len()) or a local defined as X.len()): with another string's length the ASCII shortcut fires on a non-ASCII string whose byte length equals it and the cut falls at byte offsets",
 		Run: runSliceLengthPairing})
 }
+
+// ---- C06.R11: assignment context and assignability reach every nested target ----
+//
+// Python's set_context (ast.c) recurses into the children of a target that are targets themselves: the elements of a
+// Tuple or List and the operand of a Starred. Only parser.setCtx rejects what is not assignable (the SetCtx methods of
+// the nodes skip such children silently), so each of those three node types needs an arm in parser.setCtx that applies
+// setCtx (or setCtxs) to exactly those children. An arm that is missing leaves `*f(), a = x` accepted and, when the
+// node's own SetCtx method does not recurse either, leaves names under it in Load context.
+var targetChildren = []struct{ typ, field string }{{"Tuple", "Elts"}, {"List", "Elts"}, {"Starred", "Value"}}
+
+func runTargetDescent(c *Ctx, r *Rep) {
+	p := c.MustPkg("parser")
+	info := p.TypesInfo
+	fd := c.FuncDecl("parser", "setCtx")
+	if fd == nil {
+		r.undecided("descent|anchor", token.NoPos, "parser.setCtx not found")
+		return
+	}
+	r.analysed("parser.setCtx")
+	view := c.Expand(p, fd)
+	self := c.Func("parser", "setCtx")
+	// helpers that apply setCtx to every element of a slice (setCtxs)
+	appliesSetCtx := func(fn *types.Func) bool {
+		if fn == self {
+			return true
+		}
+		d := c.Decl(fn)
+		if d == nil || fn.Pkg() != self.Pkg() {
+			return false
+		}
+		found := false
+		ast.Inspect(d.Body, func(nd ast.Node) bool {
+			if call, ok := nd.(*ast.CallExpr); ok && Callee(info, call) == self {
+				found = true
+			}
+			return true
+		})
+		return found
+	}
+	covered := map[string]bool{}
+	ast.Inspect(view.Body, func(nd ast.Node) bool {
+		ts, ok := nd.(*ast.TypeSwitchStmt)
+		if !ok {
+			return true
+		}
+		for _, cl := range ts.Body.List {
+			cc := cl.(*ast.CaseClause)
+			for _, te := range cc.List {
+				tv, ok := info.Types[te]
+				if !ok {
+					continue
+				}
+				ptr, ok := tv.Type.(*types.Pointer)
+				if !ok {
+					continue
+				}
+				named, ok := ptr.Elem().(*types.Named)
+				if !ok || named.Obj().Pkg() == nil || named.Obj().Pkg().Path() != modPath+"/ast" {
+					continue
+				}
+				for _, tc := range targetChildren {
+					if named.Obj().Name() != tc.typ {
+						continue
+					}
+					for _, st := range cc.Body {
+						ast.Inspect(st, func(m ast.Node) bool {
+							call, ok := m.(*ast.CallExpr)
+							if !ok {
+								return true
+							}
+							fn := Callee(info, call)
+							if fn == nil || !appliesSetCtx(fn) {
+								return true
+							}
+							for _, a := range call.Args {
+								if sel, ok := unparen(a).(*ast.SelectorExpr); ok && sel.Sel.Name == tc.field {
+									covered[tc.typ] = true
+								}
+							}
+							return true
+						})
+					}
+				}
+			}
+		}
+		return true
+	})
+	astPkg := c.MustPkg("ast")
+	for _, tc := range targetChildren {
+		key := "descent|parser.setCtx|" + tc.typ + "." + tc.field
+		tn, _ := astPkg.Types.Scope().Lookup(tc.typ).(*types.TypeName)
+		if tn == nil {
+			r.undecided(key, fd.Pos(), "ast.%s not found", tc.typ)
+			continue
+		}
+		if covered[tc.typ] {
+			r.ok(key, fd.Pos(), "setCtx is applied to %s.%s", tc.typ, tc.field)
+		} else {
+			r.bad(key, fd.Pos(), "parser.setCtx has no arm that applies setCtx to the %s of an ast.%s target: only setCtx rejects what cannot be assigned to (the nodes' own SetCtx methods skip such children silently), so a non-assignable expression there is accepted (`*f(), a = x`) and the names under it get their context only if every node method on the way happens to recurse [ast.c set_context recurses into Tuple.elts, List.elts and Starred.value]", tc.field, tc.typ)
+		}
+	}
+}
+
+func init() {
+	register(&Rule{ID: "C06.R11", Prop: "C06", Floor: 3,
+		Doc: "assignment context and assignability reach every nested target: parser.setCtx has an arm for each node type with target children (Tuple.Elts, List.Elts, Starred.Value — ast.c set_context) that applies setCtx to them; the nodes' own SetCtx methods do not reject anything, so a missing arm accepts `*f(), a = x`",
+		Run: runTargetDescent})
+}
